@@ -39,16 +39,22 @@ def mk_scn(rng: random.Random, unauthorised: str = "") -> dict:
         b_type = rng.choice(["time-based", "time-based", "event-based", "hybrid"])
         sid = f"B{k}"
         targets = []
+        # an agent simulator may have several agent entities, all sent in ONE set_data call; with probability 1/2
+        # they write the same attribute of the same entity of A (one input slot per source entity)
+        ents_b = ["e0", "e1"] if rng.random() < 0.3 else ["e0"]
+        same_attr = rng.random() < 0.5
         for ea in ents_a:
-            if rng.random() < 0.8:
-                targets.append([f"{sid}.e0", f"A.{ea}", rng.choice(["c", "c", "d"])])
+            attr = rng.choice(["c", "c", "d"])
+            for eb in ents_b:
+                if rng.random() < 0.8:
+                    targets.append([f"{sid}.{eb}", f"A.{ea}", attr if same_attr else rng.choice(["c", "c", "d"])])
         beh: Dict[str, Any] = {"seed": rng.randrange(1 << 30), "sizes": [sb],
                                "agent": {"targets": targets, "p_set": rng.choice([0.3, 0.6, 1.0]),
                                          "get": [[f"A.{ents_a[0]}", "o"]], "p_get": rng.choice([0.0, 0.5])}}
         ins = {"i": "trigger" if b_type != "time-based" else "nontrigger"}
         if b_type == "hybrid":
             beh["self_steps"] = {str(t): t + sb for t in range(0, 64)}
-        sims.append({"sid": sid, "type": b_type, "path": [], "entities": ["e0"], "ins": ins, "outs": {},
+        sims.append({"sid": sid, "type": b_type, "path": [], "entities": ents_b, "ins": ins, "outs": {},
                      "beh": beh})
         c = {"src": "A", "se": ents_a[0], "sa": "o", "dst": sid, "de": "e0", "da": "i", "async": True}
         if rng.random() < 0.3:
@@ -63,6 +69,9 @@ def mk_scn(rng: random.Random, unauthorised: str = "") -> dict:
             sims[0]["ins"][f"fb{k}"] = "nontrigger"
             conns.append({"src": sid, "se": "e0", "sa": "bo", "dst": "A", "de": ents_a[0], "da": f"fb{k}",
                           "shift": rng.choice([1, 2, 2, 3]), "init": f"init:{sid}.e0.bo"})
+    if rng.random() < 0.2 and until > 3:
+        # the controlled simulator's first step is set with set_initial_event(t0 > 0): its agents step before that
+        sims[0]["initial_event"] = rng.randint(1, min(4, until - 2))
     if rng.random() < 0.5:
         sims.append({"sid": "X", "type": "time-based", "path": [], "entities": ["e0"], "ins": {"i": "nontrigger"},
                      "outs": {"o": "persistent"}, "beh": {"seed": 5, "sizes": [rng.choice([1, 2])]}})
@@ -85,9 +94,11 @@ def mk_scn(rng: random.Random, unauthorised: str = "") -> dict:
             conns.append({"src": "W", "se": "e0", "sa": "o", "dst": "A", "de": ents_a[0], "da": "w", "weak": True})
     if unauthorised:
         # an agent without (async) connection to A tries to write / read
-        beh = {"seed": 9, "sizes": [1], "agent": {"targets": [["U.e0", "A.e0", "c"]] if unauthorised != "get" else [],
+        tgt = "Nope.e0" if unauthorised.startswith("unknown_sim") else "A.e0"     # a simulator id nobody started
+        is_get = unauthorised.endswith("get")
+        beh = {"seed": 9, "sizes": [1], "agent": {"targets": [["U.e0", tgt, "c"]] if not is_get else [],
                                                   "p_set": 1.0,
-                                                  "get": [["A.e0", "o"]] if unauthorised == "get" else [], "p_get": 1.0}}
+                                                  "get": [[tgt, "o"]] if is_get else [], "p_get": 1.0}}
         sims.append({"sid": "U", "type": "time-based", "path": [], "entities": ["e0"], "ins": {"i": "nontrigger"},
                      "outs": {}, "beh": beh})
         if unauthorised in ("plain_conn", "get"):
@@ -100,7 +111,7 @@ def mk_scn(rng: random.Random, unauthorised: str = "") -> dict:
 def judge(scn, tr, a: Analysis) -> List[dict]:
     out = [dict(v) for v in a.viol["C16"]]
     # exactly-once / next-step delivery of set_data values: the C03 slot comparison restricted to set_data slots
-    agent_ids = {f"{s['sid']}.e0" for s in scn["sims"] if s["sid"].startswith(("B", "U"))}
+    agent_ids = {f"{s['sid']}.{e}" for s in scn["sims"] if s["sid"].startswith(("B", "U")) for e in s["entities"]}
     for v in a.viol["C03"]:
         for d in v["diffs"]:
             if d["slot"][2] in agent_ids:
@@ -129,7 +140,7 @@ def run_slice(job: dict) -> dict:
         rng = random.Random(H(seed, "c16", i))
         unauth = ""
         if i % 10 == 9:
-            unauth = ["no_conn", "plain_conn", "get"][(i // 10) % 3]
+            unauth = ["no_conn", "plain_conn", "get", "unknown_sim", "unknown_sim_get"][(i // 10) % 5]
         scn = mk_scn(rng, unauth)
         sched = dict(POLICY_CYCLE[i % len(POLICY_CYCLE)])
         sched["seed"] = H(seed, "c16s", i) % (1 << 31)
@@ -137,6 +148,8 @@ def run_slice(job: dict) -> dict:
         a = Analysis(scn, tr)
         res["evaluations"] += 1
         C["runs"] += 1
+        C["runs_agent_simulator_with_two_entities"] += int(any(len(x["entities"]) > 1 for x in scn["sims"] if x["sid"].startswith("B")))
+        C["runs_first_step_of_A_after_0"] += int(scn["sims"][0].get("initial_event") is not None)
         for k in ("set_data_values", "set_data_expected", "set_data_collapsed", "c16_order_checks",
                   "c16_order_checks_agent_inflight", "c16_order_checks_agent_finished_meanwhile"):
             C[k] += a.stats.get(k, 0)
